@@ -54,34 +54,25 @@ func ioBody(c03 bool, depth int, pairs [][2]string) func(x *engine.X) {
 	}
 }
 
-func c01DFS(tier string) *engine.DFS {
-	depth, dev := 4, 1
-	if tier == "thorough" {
-		depth, dev = 5, 2
-	}
-	return &engine.DFS{Name: "io@" + tier, Body: ioBody(false, depth, ioPairs(ioKinds)), Procs: 16, WorkerProcs: 2, ShardDepth: 3,
-		MaxDeviations: dev, MaxPoints: 200, HangTimeout: 20 * time.Second}
+func c01DFS(tier string, st ioStage) *engine.DFS {
+	return &engine.DFS{Name: stageName("io", tier, st), Body: ioBody(false, st.depth, ioPairs(ioKinds)), Procs: 16, WorkerProcs: 2, ShardDepth: 3,
+		MaxDeviations: st.dev, MaxPoints: 200, HangTimeout: 20 * time.Second}
 }
 
 func C01(tier string) *engine.Report {
 	rep := engine.NewReport("C01", tier, "exploration")
 	var tot engine.DFSTotals
-	d := c01DFS(tier)
-	if tier == "thorough" {
-		d.Budget = 25 * time.Minute
-	} else {
-		d.Budget = 4 * time.Minute
-	}
-	tot.Add(d.Run(), rep)
+	done := runLadder(rep, &tot, tier, func(st ioStage) *engine.DFS { return c01DFS(tier, st) })
 	tot.Fill(rep, "all action sequences up to the depth bound over two real objects (all 28 unordered pairs of {Dial conn, accepted conn, FIFO read end, FIFO write end, packet conn, listener, AsyncAdapter}) sharing one IO, with raw-syscall peers; "+
-		"start variants (forced-deferred, *All) and handler behaviours (re-issue, cancel/close self or other, re-arm on cancellation) are deviations, all combinations up to the bound; non-trivial = at least one action was taken", d.MaxDeviations)
-	rep.Coverage["depth"] = map[string]int{"quick": 4, "thorough": 5}[tier]
+		"start variants (forced-deferred, *All) and handler behaviours (re-issue, cancel/close self or other, re-arm on cancellation) are deviations, all combinations up to the bound; non-trivial = at least one action was taken", 0)
+	fillLadder(rep, done, len(rep.Violations) > 0)
 	rep.Assumptions = append(rep.Assumptions, "poll(2) on the object's descriptor is trusted as the readiness oracle", "the order of events inside one epoll batch is the kernel's; both start orders are enumerated, batch order itself is observed, not forced")
 	return rep
 }
 
 func C01Replay(v engine.Violation, log func(string)) *engine.Violation {
-	return c01DFS(v.Config[3:]).ReplayChoices(v.Choices)
+	tier, st := parseStage(v.Config)
+	return c01DFS(tier, st).ReplayChoices(v.Choices)
 }
 
 // ---- C03 --------------------------------------------------------------------------------------------
@@ -222,38 +213,30 @@ func (d *ioDriver) c03Finish() {
 	}
 }
 
-func c03DFS(tier string) *engine.DFS {
-	depth, dev := 4, 1
-	if tier == "thorough" {
-		depth, dev = 5, 2
-	}
+func c03DFS(tier string, st ioStage) *engine.DFS {
+	depth, dev := st.depth, st.dev
 	kinds := []string{"tcp", "fifo-r", "pkt", "lst", "adp"}
 	pairs := [][2]string{}
 	for _, k := range kinds {
 		pairs = append(pairs, [2]string{k, ""})
 	}
 	pairs = append(pairs, [2]string{"tcp", "fifo-r"}, [2]string{"pkt", "lst"}, [2]string{"adp", "tcp"}, [2]string{"fifo-w", "fifo-r"})
-	return &engine.DFS{Name: "pending@" + tier, Body: ioBody(true, depth, pairs), Procs: 16, WorkerProcs: 2, ShardDepth: 3,
+	return &engine.DFS{Name: stageName("pending", tier, st), Body: ioBody(true, depth, pairs), Procs: 16, WorkerProcs: 2, ShardDepth: 3,
 		MaxDeviations: dev, MaxPoints: 200, HangTimeout: 20 * time.Second}
 }
 
 func C03(tier string) *engine.Report {
 	rep := engine.NewReport("C03", tier, "exploration")
 	var tot engine.DFSTotals
-	d := c03DFS(tier)
-	if tier == "thorough" {
-		d.Budget = 25 * time.Minute
-	} else {
-		d.Budget = 4 * time.Minute
-	}
-	tot.Add(d.Run(), rep)
+	done := runLadder(rep, &tot, tier, func(st ioStage) *engine.DFS { return c03DFS(tier, st) })
 	n, v := c03EINTR(tier)
 	for _, vv := range v {
 		rep.Add(vv)
 	}
 	tot.Fill(rep, "all action sequences up to the depth bound over one or two real objects plus a timer, posted handlers, a regular file (registration fails with EPERM) and descriptors closed underneath (EBADF); "+
 		"Pending() is compared with the harness ledger after every action, every PollOne is judged against the handlers that ran and poll(2) on the epoll descriptor, RunPending is called wherever the ledger says it must return; "+
-		"plus signal-interruption cases of the blocking wait; non-trivial = at least one action was taken", d.MaxDeviations)
+		"plus signal-interruption cases of the blocking wait; non-trivial = at least one action was taken", 0)
+	fillLadder(rep, done, len(rep.Violations) > 0)
 	rep.Coverage["eintr_cases"] = n
 	rep.Coverage["evaluations"] = rep.Coverage["evaluations"].(int) + n
 	return rep
@@ -269,7 +252,8 @@ func C03Replay(v engine.Violation, log func(string)) *engine.Violation {
 		}
 		return nil
 	}
-	return c03DFS(v.Config[8:]).ReplayChoices(v.Choices)
+	tier, st := parseStage(v.Config)
+	return c03DFS(tier, st).ReplayChoices(v.Choices)
 }
 
 var _ = errors.Is
